@@ -74,6 +74,86 @@ fn static_first_cells(stats: &mut Stats, ctx: &vh::explore::Ctx) {
     );
 }
 
+/// Exclusive receivers: `&mut self` and `Pin<&mut Self>` methods with / without a real function and
+/// with a default body fall through exactly like `&self` methods.
+#[unimock(api=XMock, unmock_with=[real_x_unm, _, real_x_pin, _])]
+pub trait X7 {
+    fn x_unm(&mut self, x: u8) -> u32;
+    fn x_plain(&mut self, x: u8) -> u32;
+    fn x_pin(self: core::pin::Pin<&mut Self>, x: u8) -> u32;
+    fn x_def(&mut self, x: u8) -> u32 {
+        6_000 + x as u32
+    }
+}
+
+pub fn real_x_unm(_: &mut impl core::any::Any, x: u8) -> u32 {
+    4_000 + x as u32
+}
+
+pub fn real_x_pin(_: core::pin::Pin<&mut impl core::any::Any>, x: u8) -> u32 {
+    5_000 + x as u32
+}
+
+fn exclusive_receiver_cells(stats: &mut Stats, ctx: &vh::explore::Ctx) {
+    use core::pin::Pin;
+    let mut cell = |name: &str, got: Result<u32, String>, want: Result<u32, &str>| {
+        stats.add("transitions", 1);
+        stats.add("traces_validated_against_impl", 1);
+        let ok = match (&got, &want) {
+            (Ok(g), Ok(w)) => g == w,
+            (Err(msg), Err(needle)) => msg.contains(needle),
+            _ => false,
+        };
+        if !ok {
+            ctx.violation(
+                &format!("exclusive-receiver/{name}"),
+                &format!("{name}: expected {want:?}, observed {got:?}"),
+                J::obj().set("cell", name),
+            );
+        }
+    };
+    let quiet = |u: Unimock| u.no_verify_in_drop();
+    cell("partial/unmentioned/x_unm", catch(|| quiet(Unimock::new_partial(())).x_unm(1)), Ok(4_001));
+    cell("partial/unmentioned/x_pin", catch(|| Pin::new(&mut quiet(Unimock::new_partial(()))).x_pin(1)), Ok(5_001));
+    cell("partial/unmentioned/x_def (default body)", catch(|| quiet(Unimock::new_partial(())).x_def(1)), Ok(6_001));
+    cell("strict/unmentioned/x_def (default body)", catch(|| quiet(Unimock::new(())).x_def(2)), Ok(6_002));
+    cell(
+        "partial/unmentioned/x_plain (no real function)",
+        catch(|| quiet(Unimock::new_partial(())).x_plain(1)),
+        Err("X7::x_plain cannot be unmocked as there is no function available to call"),
+    );
+    cell(
+        "strict/unmentioned/x_unm",
+        catch(|| quiet(Unimock::new(())).x_unm(1)),
+        Err("X7::x_unm(1): No mock implementation found"),
+    );
+    cell(
+        "partial/unmatched/x_unm (real function)",
+        catch(|| quiet(Unimock::new_partial(XMock::x_unm.each_call(matching!(0)).returns(1u32))).x_unm(2)),
+        Ok(4_002),
+    );
+    cell(
+        "partial/unmatched/x_pin (real function)",
+        catch(|| Pin::new(&mut quiet(Unimock::new_partial(XMock::x_pin.each_call(matching!(0)).returns(1u32)))).x_pin(2)),
+        Ok(5_002),
+    );
+    cell(
+        "strict/unmatched/x_unm",
+        catch(|| quiet(Unimock::new(XMock::x_unm.each_call(matching!(0)).returns(1u32))).x_unm(2)),
+        Err("X7::x_unm(2): No matching call patterns"),
+    );
+    cell(
+        "strict/unmatched/x_def (mentioned: no fall-through to the default body)",
+        catch(|| quiet(Unimock::new(XMock::x_def.each_call(matching!(0)).returns(1u32))).x_def(2)),
+        Err("X7::x_def(2): No matching call patterns"),
+    );
+    cell(
+        "strict/matched/x_unm",
+        catch(|| quiet(Unimock::new(XMock::x_unm.each_call(matching!(0)).returns(1u32))).x_unm(0)),
+        Ok(1),
+    );
+}
+
 fn seg(resp: Resp, quant: Quant) -> Seg {
     Seg { resp, quant }
 }
@@ -242,6 +322,7 @@ fn main() {
         termination_cells(&mut stats, ctx);
     }
     static_first_cells(&mut stats, ctx);
+    exclusive_receiver_cells(&mut stats, ctx);
     guard(&stats, 8, true);
     let cov = coverage(
         ctx,
